@@ -15,6 +15,11 @@ static LAST_PANIC: std::sync::Mutex<String> = std::sync::Mutex::new(String::new(
 static CASES: std::sync::atomic::AtomicU64 = std::sync::atomic::AtomicU64::new(0);
 /// one generated input / one step of an operation sequence evaluated against the real crate
 #[inline] fn case() { CASES.fetch_add(1, std::sync::atomic::Ordering::Relaxed); }
+/// second pass of every oracle ("big"): sizes up to the upper end of the range the property quantifies over
+static BIG: std::sync::atomic::AtomicBool = std::sync::atomic::AtomicBool::new(false);
+fn up(small: usize, big: usize) -> usize { if BIG.load(std::sync::atomic::Ordering::Relaxed) { big } else { small } }
+/// max that propagates NaN (f64::max drops it: a NaN result must not look like a zero error)
+fn nmax(a: f64, b: f64) -> f64 { if a.is_nan() || b.is_nan() { f64::NAN } else { a.max(b) } }
 fn report(out: &mut Out, oracle: &'static str, input: String, observed: String, expected: String) {
     if out.iter().filter(|f| f.oracle == oracle).count() < 40 { out.push(Finding { oracle, input, observed, expected }); }
 }
@@ -41,29 +46,31 @@ fn matmul_c(a: &M, b: &M, c: usize) -> M {
     (0..r).map(|i| (0..c).map(|j| (0..k).fold(Q::int(0), |s, t| s + a[i][t] * b[t][j])).collect()).collect()
 }
 fn det_ref(m: &M) -> Q {
+    // exact Gaussian elimination over Q with row exchanges (cubic cost, any order)
     let n = m.len();
-    if n == 0 { return Q::int(1); }
-    if n == 1 { return m[0][0]; }
-    let mut s = Q::int(0);
-    for j in 0..n {
-        let minor: M = (1..n).map(|i| (0..n).filter(|&c| c != j).map(|c| m[i][c]).collect()).collect();
-        let t = m[0][j] * det_ref(&minor);
-        if j % 2 == 0 { s = s + t } else { s = s - t }
+    let mut a: M = m.clone(); let mut det = Q::int(1);
+    for k in 0..n {
+        let p = match (k..n).find(|&i| !a[i][k].is_zero()) { Some(p) => p, None => return Q::int(0) };
+        if p != k { a.swap(p, k); det = -det; }
+        det = det * a[k][k];
+        for i in k + 1..n { if !a[i][k].is_zero() { let f = a[i][k] / a[k][k]; for j in k..n { let t = a[k][j]; a[i][j] = a[i][j] - f * t; } } }
     }
-    s
+    det
 }
 fn vq(v: &Vector<Q>) -> Vec<Q> { (0..v.size()).map(|i| v[i]).collect() }
 
 // ---------------------------------------------------------------- C01 / C02
 fn c01(rng: &mut Rng, out: &mut Out) {
     for it in 0..400 { case();
-        let n = 1 + (it % 5);
+        let n = 1 + (it % up(5, 12));
         let mut a = rand_m(rng, n, n);
         // force pivoting situations: zero / negative leading entries
         if n > 1 && it % 3 == 0 { a[0][0] = Q::int(0); }
         if n > 2 && it % 4 == 0 { a[1][1] = Q::int(0); a[1][0] = Q::int(0); }
         if det_ref(&a).is_zero() { continue; }
-        let b: Vec<Q> = (0..n).map(|_| rng.q()).collect();
+        let mut b: Vec<Q> = (0..n).map(|_| rng.q()).collect();
+        if it % 6 == 1 && n > 1 { let j = 1 + rng.below(n as u64 - 1) as usize; for (i, v) in b.iter_mut().enumerate() { *v = Q::int((i == j) as i64); } }      // a unit vector (leading zeros)
+        if it % 6 == 4 && n > 2 { b[0] = Q::int(0); b[1] = Q::int(0); }
         let bv = Vector::create(b.clone());
         for (name, which) in [("solve_basic", 0), ("solve_lu", 1)] { case();
             let mut am = to_matrix(&a);
@@ -83,7 +90,7 @@ fn c01(rng: &mut Rng, out: &mut Out) {
     // the same over f64 and Complex<f64> (magnitude-based pivoting goes through abs / PartialOrd of these types):
     // integer data with a nonsingular exact twin, plus tiny or negative leading entries that only a row exchange survives
     for it in 0..440 { case();
-        let n = if it < 240 { 1 + (it % 5) } else { 3 + (it % 4) };
+        let n = if it < 240 { 1 + (it % up(5, 12)) } else { 3 + (it % up(4, 9)) };
         let mut a = rand_m(rng, n, n);
         // it >= 240: at elimination step k the pivot column holds (zero or tiny diagonal, entries of order one, tiny entries that
         // are still larger than the diagonal) - only the choice of the LARGEST magnitude keeps the multipliers bounded
@@ -99,7 +106,9 @@ fn c01(rng: &mut Rng, out: &mut Out) {
         if det_ref(&a).is_zero() { continue; }
         let mut af: Vec<Vec<f64>> = a.iter().map(|r| r.iter().map(|x| x.to_f64()).collect()).collect();
         for &(i, j, v) in &tiny { af[i][j] = v; }
-        if n > 1 && it % 3 == 0 && a[1][0].to_f64() != 0.0 { af[0][0] = 1.0e-17; }       // tiny leading pivot
+        if n > 1 && it % 3 == 0 && a[1][0].to_f64() != 0.0 {       // tiny leading pivot; the system must stay well posed when that entry is read as zero
+            let mut a0 = a.clone(); a0[0][0] = Q::int(0); if det_ref(&a0).is_zero() { continue; }
+            af[0][0] = 1.0e-17; }
         if n > 1 && it % 4 == 1 { for j in 0..n { af[n - 1][j] *= -1.0e3; } }            // large negative row
         let xs: Vec<f64> = (0..n).map(|_| rng.int(-4, 4) as f64).collect();
         let bf: Vec<f64> = (0..n).map(|i| (0..n).map(|j| af[i][j] * xs[j]).sum()).collect();
@@ -110,7 +119,7 @@ fn c01(rng: &mut Rng, out: &mut Out) {
             let bv = Vec64::create(bf.clone());
             match quiet(|| if which == 0 { m.solve_basic(&bv) } else { m.solve_lu(&bv) }) {
                 Ok(x) => {
-                    let res = (0..n).map(|i| ((0..n).map(|j| af[i][j] * x[j]).sum::<f64>() - bf[i]).abs()).fold(0.0f64, f64::max);
+                    let res = (0..n).map(|i| ((0..n).map(|j| af[i][j] * x[j]).sum::<f64>() - bf[i]).abs()).fold(0.0f64, nmax);
                     if !(res <= 1e-9 * (1.0 + scale)) {
                         report(out, if which == 0 { "C01 solve_basic over f64: small backward error" } else { "C01 solve_lu over f64: small backward error" },
                                format!("A={:?} b={:?}", af, bf), format!("x={:?} residual {:e}", (0..n).map(|i| x[i]).collect::<Vec<_>>(), res), "residual of the order of rounding".into());
@@ -125,7 +134,7 @@ fn c01(rng: &mut Rng, out: &mut Out) {
             let bc = Vector::<Cmplx>::create(bf.iter().map(|v| w * *v).collect());
             match quiet(|| if which == 0 { mc.solve_basic(&bc) } else { mc.solve_lu(&bc) }) {
                 Ok(x) => {
-                    let res = (0..n).map(|i| { let mut s = Cmplx::new(0.0, 0.0); for j in 0..n { s = s + (w * af[i][j]) * x[j]; } (s - w * bf[i]).abs() }).fold(0.0f64, f64::max);
+                    let res = (0..n).map(|i| { let mut s = Cmplx::new(0.0, 0.0); for j in 0..n { s = s + (w * af[i][j]) * x[j]; } (s - w * bf[i]).abs() }).fold(0.0f64, nmax);
                     if !(res <= 1e-9 * (1.0 + 2.0 * scale)) {
                         report(out, if which == 0 { "C01 solve_basic over Complex<f64>: small backward error" } else { "C01 solve_lu over Complex<f64>: small backward error" },
                                format!("A=(1+0.5i)*{:?} b=(1+0.5i)*{:?}", af, bf), format!("residual {:e}", res), "residual of the order of rounding".into());
@@ -136,9 +145,32 @@ fn c01(rng: &mut Rng, out: &mut Out) {
         }
     }
 }
+/// C01 over f64 at extreme (but normal) magnitudes: entries are small integers times 2^+-565 (~1e+-170) or 2^+-330; the multipliers of
+/// an elimination with partial pivoting are of order one, so no intermediate of a correct solver leaves the normal range
+fn c01_extreme(rng: &mut Rng, out: &mut Out) {
+    for n in [1usize, 2, 3, 5, 7] { for e in [-565i32, 565, -330, 330, -1000, 1000] { for rep in 0..3 { case();
+        let sc = { let mut x = 1.0f64; let mut k = e; while k > 500 { x *= 2.0f64.powi(500); k -= 500; } while k < -500 { x *= 2.0f64.powi(-500); k += 500; } x * 2.0f64.powi(k) };
+        // a row permutation of a strictly diagonally dominant integer matrix: nonsingular, well conditioned, needs row exchanges
+        let mut perm: Vec<usize> = (0..n).collect(); for k in (1..n).rev() { let t = rng.below(k as u64 + 1) as usize; perm.swap(k, t); }
+        let mut a = vec![vec![0.0f64; n]; n];
+        for i in 0..n { for j in 0..n { a[perm[i]][j] = if i == j { (3 * n as i64 + 1 + rng.int(0, 3)) as f64 * if rng.below(2) == 0 { 1.0 } else { -1.0 } } else { rng.int(-2, 2) as f64 }; } }
+        let xs: Vec<f64> = (0..n).map(|_| rng.int(-4, 4) as f64).collect();
+        let bi: Vec<f64> = (0..n).map(|i| (0..n).map(|j| a[i][j] * xs[j]).sum()).collect();
+        let ctx = format!("A=2^{} * {:?} b=2^{} * {:?} (rep {})", e, a, e, bi, rep);
+        for which in 0..2 { case();
+            let mut m = Mat64::new(n, n, 0.0); for i in 0..n { for j in 0..n { m[(i, j)] = a[i][j] * sc; } }
+            let bv = Vec64::create(bi.iter().map(|v| v * sc).collect());
+            match quiet(|| if which == 0 { m.solve_basic(&bv) } else { m.solve_lu(&bv) }) {
+                Ok(x) => { let err = (0..n).map(|i| (x[i] - xs[i]).abs()).fold(0.0f64, nmax);
+                    if !(err <= 1e-9) { report(out, if which == 0 { "C01 solve_basic over f64 at extreme magnitudes: accurate whatever the scale of the entries" } else { "C01 solve_lu over f64 at extreme magnitudes: accurate whatever the scale of the entries" }, ctx.clone(), format!("x={:?}", (0..n).map(|i| x[i]).collect::<Vec<_>>()), format!("{:?}", xs)); } }
+                Err(er) => report(out, "C01 solver panicked on a nonsingular f64 system", ctx.clone(), er, "a solution".into()),
+            }
+        }
+    } } }
+}
 fn c02(rng: &mut Rng, out: &mut Out) {
     for it in 0..300 { case();
-        let n = 1 + (it % 4);
+        let n = 1 + (it % up(4, 8));
         let mut a = rand_m(rng, n, n);
         if it % 5 == 0 && n > 1 { for j in 0..n { a[n - 1][j] = a[0][j]; } }           // singular
         if it % 7 == 0 && n > 1 { for i in 0..n { a[i][0] = Q::int(0); } }             // zero column
@@ -154,9 +186,22 @@ fn c02(rng: &mut Rng, out: &mut Out) {
                     let p = matmul(&a, &from_matrix(&inv)); let p2 = matmul(&from_matrix(&inv), &a);
                     let id: M = (0..n).map(|i| (0..n).map(|j| Q::int((i == j) as i64)).collect()).collect();
                     if p != id || p2 != id { report(out, "C02 A*inv(A) == inv(A)*A == I", format!("A={}", mq(&a)), format!("A*inv={}", mq(&p)), "identity".into()); }
+                    // the same identity formed with the library's own products, borrowing and consuming
+                    for (form, r) in [("&A * &inv", quiet(|| from_matrix(&(&am * &inv)))), ("A * inv", quiet(|| from_matrix(&(am.clone() * inv.clone())))), ("inv * A", quiet(|| from_matrix(&(inv.clone() * am.clone()))))] {
+                        match r { Ok(m) => if m != id { report(out, "C02 A*inv(A) == inv(A)*A == I with the library's matrix products (borrowing and consuming)", format!("{} A={}", form, mq(&a)), mq(&m), "identity".into()); },
+                                  Err(e) => report(out, "C02 product of a matrix and its inverse panicked", format!("{} A={}", form, mq(&a)), e, "identity".into()) } }
                 }
                 Err(e) => report(out, "C02 inverse panicked on a nonsingular matrix", format!("A={}", mq(&a)), e, "inverse".into()),
             }
+        }
+        // a column of subnormal entries (pivots below 1/f64::MAX): the determinant stays finite and accurate (the inverse legitimately overflows)
+        if !dr.is_zero() && n >= 2 && it % 3 == 0 {
+            let tiny = f64::from_bits(1u64 << 44);      // 2^-1030
+            let mut ms = Mat64::new(n, n, 0.0); for i in 0..n { for j in 0..n { ms[(i, j)] = a[i][j].to_f64() * if j == 0 { tiny } else { 1.0 }; } }
+            let want = dr.to_f64() * tiny;
+            match quiet(|| ms.determinant()) {
+                Ok(d) => if !(d.is_finite() && (d - want).abs() <= 1e-6 * want.abs()) { report(out, "C02 f64 determinant with a subnormal column is finite and accurate", format!("A={} with column 0 scaled by 2^-1030", mq(&a)), format!("{:e}", d), format!("{:e}", want)); },
+                Err(e) => report(out, "C02 f64 determinant panicked", format!("A={} with column 0 scaled by 2^-1030", mq(&a)), e, format!("{:e}", want)) }
         }
         // the same matrix over f64 and Complex<f64> (pivoting by |.| of these types); integer data, tolerance of rounding size
         let af: Vec<Vec<f64>> = a.iter().map(|r| r.iter().map(|x| x.to_f64()).collect()).collect();
@@ -187,7 +232,7 @@ fn c02(rng: &mut Rng, out: &mut Out) {
 // ---------------------------------------------------------------- C03
 fn c03_int(rng: &mut Rng, out: &mut Out) {
     for _ in 0..60 { case();
-        let (r, c) = (1 + rng.below(3) as usize, 1 + rng.below(3) as usize);
+        let (r, c) = (1 + rng.below(up(3, 8) as u64) as usize, 1 + rng.below(up(3, 8) as u64) as usize);
         let vals: Vec<Vec<i64>> = (0..r).map(|_| (0..c).map(|_| rng.int(-40, 40)).collect()).collect();
         let mut m = Matrix::<i64>::new(r, c, 0); for i in 0..r { for j in 0..c { m[(i, j)] = vals[i][j]; } }
         let k = { let mut k = rng.int(-5, 5); if k == 0 { k = 3; } k };
@@ -205,7 +250,7 @@ fn c03_int(rng: &mut Rng, out: &mut Out) {
 fn c03(rng: &mut Rng, out: &mut Out) {
     c03_int(rng, out);
     // products for all shapes up to 4
-    for r in 0..4usize { for k in 0..4usize { for c in 0..4usize { case();
+    for r in 0..up(4, 9) { for k in 0..up(4, 9) { for c in 0..up(4, 9) { case();
         let (a, b) = (rand_m(rng, r, k), rand_m(rng, k, c));
         let (am, bm) = (Matrix::<Q>::new(r, k, Q::int(0)), Matrix::<Q>::new(k, c, Q::int(0)));
         let (mut am, mut bm) = (am, bm);
@@ -220,7 +265,7 @@ fn c03(rng: &mut Rng, out: &mut Out) {
     // editing sequences against the model; the same edits are applied to an f64 twin (integer-valued data are exact in f64)
     // so that norms and equality are taken on the EDITED matrices, not on freshly built ones
     for _it in 0..300 { case();
-        let (r, c) = (1 + rng.below(4) as usize, 1 + rng.below(4) as usize);
+        let (r, c) = (1 + rng.below(up(4, 8) as u64) as usize, 1 + rng.below(up(4, 8) as u64) as usize);
         let mut model: M = (0..r).map(|_| (0..c).map(|_| Q::int(rng.int(-9, 9))).collect()).collect();
         let mut m = to_matrix(&model);
         let mut mf = { let mut t = Mat64::new(r, c, 0.0); for i in 0..r { for j in 0..c { t[(i, j)] = model[i][j].to_f64(); } } t };
@@ -240,7 +285,7 @@ fn c03(rng: &mut Rng, out: &mut Out) {
                        mf.set_row(k, Vector::create(v.iter().map(|q| q.to_f64()).collect()));
                        model[k] = v.clone(); hist.push(format!("set_row({}, {})", k, qs(&v))); }
                 5 => { let (a, b) = (rng.below(rr as u64) as usize, rng.below(rr as u64) as usize); m.swap_rows(a, b); mf.swap_rows(a, b); model.swap(a, b); hist.push(format!("swap_rows({}, {})", a, b)); }
-                6 => { let (nr, nc) = (1 + rng.below(4) as usize, 1 + rng.below(4) as usize); m.resize(nr, nc); mf.resize(nr, nc);
+                6 => { let (nr, nc) = (1 + rng.below(up(4, 8) as u64) as usize, 1 + rng.below(up(4, 8) as u64) as usize); m.resize(nr, nc); mf.resize(nr, nc);
                        model = (0..nr).map(|i| (0..nc).map(|j| if i < rr && j < cc { model[i][j] } else { Q::int(0) }).collect()).collect(); hist.push(format!("resize({}, {})", nr, nc)); }
                 7 => { let (l, d, u) = (Q::int(rng.int(-9, 9)), Q::int(rng.int(-9, 9)), Q::int(rng.int(-9, 9))); m.fill_tridiag(l, d, u); mf.fill_tridiag(l.to_f64(), d.to_f64(), u.to_f64());
                        for i in 0..rr { for j in 0..cc { if j + 1 == i { model[i][j] = l } else if i == j { model[i][j] = d } else if j == i + 1 { model[i][j] = u } } } hist.push("fill_tridiag".into()); }
@@ -258,15 +303,22 @@ fn c03(rng: &mut Rng, out: &mut Out) {
             if (mf.norm_max() - mx).abs() > 1e-12 { report(out, "C03 norm_max of an edited matrix", hist.join("; "), format!("{}", mf.norm_max()), format!("{}", mx)); break; }
             let fr = model.iter().flatten().fold(0.0f64, |s, x| s + x.to_f64() * x.to_f64()).sqrt();
             if (mf.norm_frob() - fr).abs() > 1e-9 * (1.0 + fr) { report(out, "C03 norm_frob of an edited matrix", hist.join("; "), format!("{}", mf.norm_frob()), format!("{}", fr)); break; }
-            let n1 = (0..(if model.is_empty() { 0 } else { model[0].len() })).map(|j| model.iter().fold(0.0f64, |s, row| s + row[j].to_f64().abs())).fold(0.0f64, f64::max);
+            let n1 = (0..(if model.is_empty() { 0 } else { model[0].len() })).map(|j| model.iter().fold(0.0f64, |s, row| s + row[j].to_f64().abs())).fold(0.0f64, nmax);
             if !model.is_empty() && (mf.norm_1() - n1).abs() > 1e-9 * (1.0 + n1) { report(out, "C03 norm_1 of an edited matrix", hist.join("; "), format!("{}", mf.norm_1()), format!("{}", n1)); break; }
+            let ni = model.iter().map(|row| row.iter().fold(0.0f64, |s, x| s + x.to_f64().abs())).fold(0.0f64, nmax);
+            if !model.is_empty() && (mf.norm_inf() - ni).abs() > 1e-9 * (1.0 + ni) { report(out, "C03 norm_inf of an edited matrix", hist.join("; "), format!("{}", mf.norm_inf()), format!("{}", ni)); break; }
+            let mut bad_p = false;
+            for pn in [1.0f64, 1.5, 2.0, 3.0, 4.0] {      // entrywise p-norm for every order, p = 1 included (NOT the induced 1-norm)
+                let e = model.iter().flatten().fold(0.0f64, |s, x| s + x.to_f64().abs().powf(pn)).powf(1.0 / pn);
+                if !model.is_empty() && (mf.norm_p(pn) - e).abs() > 1e-9 * (1.0 + e) { report(out, "C03 norm_p is the entrywise (sum |a_ij|^p)^(1/p) for every p", format!("{} ; p={}", hist.join("; "), pn), format!("{}", mf.norm_p(pn)), format!("{}", e)); bad_p = true; break; } }
+            if bad_p { break; }
         }
     }
 }
 
 // ---------------------------------------------------------------- C04 banded, C05 tridiagonal
 fn c04(rng: &mut Rng, out: &mut Out) {
-    for n in 1..7usize { for m1 in 0..n { for m2 in 0..n { for rep in 0..6 { case();
+    for n in 1..up(7, 11) { for m1 in 0..n { for m2 in 0..n { for rep in 0..6 { case();
         let mut b = Banded::<Q>::new(n, m1, m2, Q::int(7));          // 7 = padding value that must never matter
         let mut d: M = vec![vec![Q::int(0); n]; n];
         for i in 0..n { for j in 0..n { if j <= i + m2 && i <= j + m1 { case();
@@ -280,6 +332,10 @@ fn c04(rng: &mut Rng, out: &mut Out) {
         match quiet(|| &b * &Vector::create(x.clone())) {
             Ok(p) => if vq(&p) != matvec(&d, &x) { report(out, "C04 banded product == dense product", format!("{} x={}", desc, qs(&x)), qs(&vq(&p)), qs(&matvec(&d, &x))); },
             Err(e) => report(out, "C04 banded product panicked", format!("{} x={}", desc, qs(&x)), e, qs(&matvec(&d, &x))),
+        }
+        match quiet(|| b.clone() * Vector::create(x.clone())) {
+            Ok(p) => if vq(&p) != matvec(&d, &x) { report(out, "C04 consuming banded product == dense product", format!("{} x={}", desc, qs(&x)), qs(&vq(&p)), qs(&matvec(&d, &x))); },
+            Err(e) => report(out, "C04 consuming banded product panicked", format!("{} x={}", desc, qs(&x)), e, qs(&matvec(&d, &x))),
         }
         let dr = det_ref(&d);
         if n <= 5 { if let Ok(dd) = quiet(|| b.det()) { if !dr.is_zero() && dd != dr { report(out, "C04 banded det == dense det", desc.clone(), format!("{:?}", dd), format!("{:?}", dr)); } } }
@@ -295,12 +351,13 @@ fn c04(rng: &mut Rng, out: &mut Out) {
 }
 fn c04_f64(rng: &mut Rng, out: &mut Out) {
     // f64 twin: magnitude pivoting inside the band with negative / tiny / zero diagonals; padding value must not matter
-    for n in 1..7usize { for m1 in 0..n { for m2 in 0..n { for rep in 0..6 { case();
+    for n in 1..up(7, 11) { for m1 in 0..n { for m2 in 0..n { for rep in 0..7 { case();
+        let tiny = if rep == 6 { f64::from_bits(1u64 << 44) } else { 1.0 };      // rep 6: every entry subnormal (2^-1030 times a small integer)
         let mut b = Banded::<f64>::new(n, m1, m2, 7.5);
         let mut d = vec![vec![0.0f64; n]; n];
         for i in 0..n { for j in 0..n { if j <= i + m2 && i <= j + m1 {
             let mut v = rng.int(-4, 4) as f64;
-            if i == j { v = match rep { 0 => -(1.0 + rng.below(3) as f64), 1 => if m1 > 0 && i + 1 < n { 0.0 } else { 2.0 }, 2 => if m1 > 0 && i + 1 < n { 1.0e-17 } else { 3.0 }, _ => v }; }
+            if i == j { v = match rep { 0 | 6 => -(1.0 + rng.below(3) as f64), 1 => if m1 > 0 && i + 1 < n { 0.0 } else { 2.0 }, 2 => if m1 > 0 && i + 1 < n { 1.0e-17 } else { 3.0 }, _ => v }; }
             if rep == 1 && i == j + 1 { v = -3.0; }
             if rep == 2 && i == j + 1 { v = 2.0; }
             // rep 4 / 5: a pivot column (the first / every one) holds a zero or tiny diagonal, an entry of order one just below it and
@@ -310,26 +367,27 @@ fn c04_f64(rng: &mut Rng, out: &mut Out) {
                 if i == j + 1 { v = if rng.below(2) == 0 { 3.0 } else { -2.0 }; }
                 if i == j + m1 { v = if rng.below(2) == 0 { 1.0e-17 } else { -1.0e-17 }; }
             }
+            let v = v * tiny;
             b[(i, j)] = v; d[i][j] = v;
         } } }
-        let dq: M = d.iter().map(|r| r.iter().map(|x| if x.abs() < 1e-10 && *x != 0.0 { Q::int(0) } else { Q::int(*x as i64) }).collect()).collect();
+        let dq: M = d.iter().map(|r| r.iter().map(|x| { let x = *x / tiny; if x.abs() < 1e-10 && x != 0.0 { Q::int(0) } else { Q::int(x as i64) } }).collect()).collect();
         if det_ref(&dq).is_zero() { continue; }
         let xs: Vec<f64> = (0..n).map(|_| rng.int(-4, 4) as f64).collect();
         let rhs: Vec<f64> = (0..n).map(|i| (0..n).map(|j| d[i][j] * xs[j]).sum()).collect();
         let desc = format!("n={} m1={} m2={} dense={:?} b={:?}", n, m1, m2, d, rhs);
         match quiet(|| b.solve(&Vector::create(rhs.clone()))) {
-            Ok(x) => { let res = (0..n).map(|i| ((0..n).map(|j| d[i][j] * x[j]).sum::<f64>() - rhs[i]).abs()).fold(0.0f64, f64::max);
-                let sc = 1.0 + d.iter().flatten().fold(0.0f64, |s, v| s.max(v.abs())) * (0..n).map(|i| x[i].abs()).fold(0.0f64, f64::max) * n as f64;
+            Ok(x) => { let res = (0..n).map(|i| ((0..n).map(|j| d[i][j] * x[j]).sum::<f64>() - rhs[i]).abs()).fold(0.0f64, nmax);
+                let sc = tiny * (1.0 + d.iter().flatten().fold(0.0f64, |s, v| s.max((v / tiny).abs())) * (0..n).map(|i| x[i].abs()).fold(0.0f64, nmax) * n as f64);
                 if !(res <= 1e-9 * sc) { report(out, "C04 f64 banded solve: small backward error whatever the signs", desc.clone(), format!("residual {:e}", res), "rounding size".into()); } }
             Err(e) => report(out, "C04 f64 banded solve panicked on a nonsingular system", desc.clone(), e, "a solution".into()),
         }
-        if n <= 5 { match quiet(|| b.det()) {
+        if n <= 5 && rep != 6 { match quiet(|| b.det()) {
             Ok(dd) => { let dr = det_ref(&dq).to_f64(); if !((dd - dr).abs() <= 1e-7 * (1.0 + dr.abs())) { report(out, "C04 f64 banded det agrees with the dense determinant", desc.clone(), format!("{}", dd), format!("{}", dr)); } }
             Err(e) => report(out, "C04 f64 banded det panicked", desc.clone(), e, "a value".into()) } }
     } } } }
 }
 fn c05_f64(rng: &mut Rng, out: &mut Out) {
-    for n in 1..10usize { for sc in [1.0, 1.0e-17, 1.0e-30, 9.313225746154785e-10 /* 2^-30 */, 1.0e12] { case();
+    for n in 1..up(10, 13) { for sc in [1.0, 1.0e-17, 1.0e-30, 9.313225746154785e-10 /* 2^-30 */, 1.0e12, f64::from_bits(1u64 << 44) /* 2^-1030: subnormal entries */, 1.0e300] { case();
         let sub: Vec<f64> = (0..n - 1).map(|_| rng.int(-2, 2) as f64 * sc).collect();
         let sup: Vec<f64> = (0..n - 1).map(|_| rng.int(-2, 2) as f64 * sc).collect();
         let main: Vec<f64> = (0..n).map(|_| (5 + rng.below(4)) as f64 * sc * if rng.below(2) == 0 { 1.0 } else { -1.0 }).collect();      // diagonally dominant
@@ -338,13 +396,13 @@ fn c05_f64(rng: &mut Rng, out: &mut Out) {
         let t = Tridiagonal::with_vecs(sub.clone(), main.clone(), sup.clone());
         let ctx = format!("sub={:?} main={:?} sup={:?} r={:?}", sub, main, sup, rhs);
         match quiet(|| t.solve(&Vector::create(rhs.clone()))) {
-            Ok(x) => { let err = (0..n).map(|i| (x[i] - xs[i]).abs()).fold(0.0f64, f64::max); if !(err <= 1e-9) { report(out, "C05 f64 solve of a diagonally dominant system of any scale is accurate", ctx, format!("max error {:e}", err), "<= 1e-9".into()); } }
+            Ok(x) => { let err = (0..n).map(|i| (x[i] - xs[i]).abs()).fold(0.0f64, nmax); if !(err <= 1e-9) { report(out, "C05 f64 solve of a diagonally dominant system of any scale is accurate", ctx, format!("max error {:e}", err), "<= 1e-9".into()); } }
             Err(e) => report(out, "C05 f64 solve refused a diagonally dominant system (no pivot is zero)", ctx, e, "a solution".into()),
         }
     } }
 }
 fn c05(rng: &mut Rng, out: &mut Out) {
-    for n in 1..8usize { for rep in 0..12 { case();
+    for n in 1..up(8, 13) { for rep in 0..12 { case();
         let sub: Vec<Q> = (0..n - 1).map(|_| if rep % 4 == 0 { Q::int(0) } else { rng.q() }).collect();
         let sup: Vec<Q> = (0..n - 1).map(|_| rng.q()).collect();
         let mut main: Vec<Q> = (0..n).map(|_| if rep % 5 == 0 { Q::int(0) } else { rng.q() }).collect();
@@ -383,7 +441,8 @@ fn c05(rng: &mut Rng, out: &mut Out) {
 // ---------------------------------------------------------------- C06 / C07 sparse
 fn rand_pattern(rng: &mut Rng, r: usize, c: usize) -> Vec<(usize, usize, Q)> {
     let mut t = vec![];
-    for i in 0..r { for j in 0..c { if rng.below(3) == 0 { t.push((i, j, rng.q_nz())); } } }
+    let dense = up(0, 1) == 1 && rng.below(2) == 0;      // big pass: every other pattern is nearly full (long columns)
+    for i in 0..r { for j in 0..c { if (if dense { rng.below(10) != 0 } else { rng.below(3) == 0 }) { t.push((i, j, rng.q_nz())); } } }
     // random permutation of the triplet order
     for k in (1..t.len()).rev() { let s = rng.below(k as u64 + 1) as usize; t.swap(k, s); }
     t
@@ -411,7 +470,7 @@ fn sparse_views_agree(s: &Sparse<Q>, d: &M, ctx: &str, out: &mut Out) {
 }
 fn c06(rng: &mut Rng, out: &mut Out) {
     for _it in 0..250 { case();
-        let (r, c) = (1 + rng.below(5) as usize, 1 + rng.below(5) as usize);
+        let (r, c) = (1 + rng.below(up(5, 8) as u64) as usize, 1 + rng.below(up(5, 8) as u64) as usize);
         let mut t = rand_pattern(rng, r, c);
         let mut d = dense_of(&t, r, c);
         let ctx0 = format!("from_triplets {}x{} {:?}", r, c, t.iter().map(|x| (x.0, x.1, x.2.n)).collect::<Vec<_>>());
@@ -436,7 +495,7 @@ fn c06(rng: &mut Rng, out: &mut Out) {
 fn c07_insert(rng: &mut Rng, out: &mut Out) {
     // the same identities on matrices built by a history of inserts (new entries and overwrites), then scaled
     for _ in 0..150 { case();
-        let (r, c) = (1 + rng.below(5) as usize, 1 + rng.below(5) as usize);
+        let (r, c) = (1 + rng.below(up(5, 8) as u64) as usize, 1 + rng.below(up(5, 8) as u64) as usize);
         let mut t = rand_pattern(rng, r, c);
         let mut d = dense_of(&t, r, c);
         let mut s = match quiet(|| Sparse::<Q>::from_triplets(r, c, &mut t)) { Ok(s) => s, Err(_) => continue };
@@ -470,18 +529,23 @@ fn c07_sizes(_rng: &mut Rng, out: &mut Out) {
 }
 fn c07(rng: &mut Rng, out: &mut Out) {
     for _ in 0..300 { case();
-        let (r, c) = (1 + rng.below(6) as usize, 1 + rng.below(6) as usize);
+        let (r, c) = (1 + rng.below(up(6, 10) as u64) as usize, 1 + rng.below(up(6, 10) as u64) as usize);
         let mut t = rand_pattern(rng, r, c);
         if rng.below(3) == 0 { let ec = rng.below(c as u64) as usize; t.retain(|x| x.1 != ec); }      // an empty column
         if rng.below(3) == 0 { let er = rng.below(r as u64) as usize; t.retain(|x| x.0 != er); }      // an empty row
         let d = dense_of(&t, r, c);
         let ctx = format!("{}x{} {}", r, c, mq(&d));
+        let t0 = t.clone();
         let s = match quiet(|| Sparse::<Q>::from_triplets(r, c, &mut t)) { Ok(s) => s, Err(_) => continue };
         let x: Vec<Q> = (0..c).map(|_| rng.q()).collect(); let y: Vec<Q> = (0..r).map(|_| rng.q()).collect();
         let dt: M = (0..c).map(|j| (0..r).map(|i| d[i][j]).collect()).collect();
         let ax = quiet(|| s.multiply(&Vector::create(x.clone())));
         match &ax { Ok(p) => if vq(p) != matvec(&d, &x) { report(out, "C07 sparse A*x == dense A*x", format!("{} x={}", ctx, qs(&x)), qs(&vq(p)), qs(&matvec(&d, &x))); }, Err(e) => report(out, "C07 multiply panicked", ctx.clone(), e.clone(), "A*x".into()) }
         match quiet(|| s.transpose_multiply(&Vector::create(y.clone()))) { Ok(p) => if vq(&p) != matvec(&dt, &y) { report(out, "C07 sparse A^T*y == dense A^T*y", format!("{} y={}", ctx, qs(&y)), qs(&vq(&p)), qs(&matvec(&dt, &y))); }, Err(e) => report(out, "C07 transpose_multiply panicked", ctx.clone(), e, "A^T*y".into()) }
+        { let mut t2 = t0.clone(); let mut z = Sparse::<Q>::from_triplets(r, c, &mut t2); let k0 = Q::int(0);
+          match quiet(std::panic::AssertUnwindSafe(|| { z.scale(&k0); (vq(&z.multiply(&Vector::create(x.clone()))), vq(&z.transpose_multiply(&Vector::create(y.clone())))) })) {
+              Ok((p, pt)) => if p != vec![Q::int(0); r] || pt != vec![Q::int(0); c] { report(out, "C07 a matrix scaled by zero keeps its shape: both products are zero vectors of the right lengths", ctx.clone(), format!("lengths {} and {}", p.len(), pt.len()), format!("zero vectors of lengths {} and {}", r, c)); },
+              Err(e) => report(out, "C07 products of a matrix scaled by zero panicked", ctx.clone(), e, format!("zero vectors of lengths {} and {}", r, c)) } }
         match quiet(|| s.transpose().multiply(&Vector::create(y.clone()))) { Ok(p) => if vq(&p) != matvec(&dt, &y) { report(out, "C07 A.transpose().multiply(y) == A^T*y", format!("{} y={}", ctx, qs(&y)), qs(&vq(&p)), qs(&matvec(&dt, &y))); }, Err(e) => report(out, "C07 explicit transpose then multiply panicked", ctx.clone(), e, "A^T*y".into()) }
     }
 }
@@ -505,7 +569,7 @@ fn solvers(s: &Sparse<f64>, b: &Vector<f64>, x0: &Vector<f64>, maxit: usize, tol
 fn c08(rng: &mut Rng, out: &mut Out) {
     // the stopping tests are written with Vector::norm_2 and Vector::dot: check them directly (largest entry anywhere)
     for it in 0..200 { case();
-        let n = 1 + (it % 12);
+        let n = 1 + (it % up(12, 60));
         let mut v: Vec<f64> = (0..n).map(|_| rng.f()).collect();
         let big = rng.below(n as u64) as usize; v[big] *= 1.0 + (it % 7) as f64 * 3.0;
         let w: Vec<f64> = (0..n).map(|_| rng.f()).collect();
@@ -517,7 +581,7 @@ fn c08(rng: &mut Rng, out: &mut Out) {
         if !((gd - ed).abs() <= 1e-12 * (1.0 + ed.abs())) { report(out, "C08 dot (used by every recurrence) is sum x_i y_i", format!("v={:?} w={:?}", v, w), format!("{}", gd), format!("{}", ed)); }
     }
     for it in 0..200 { case();
-        let n = 1 + rng.below(8) as usize;
+        let n = 1 + rng.below(up(8, 60) as u64) as usize;
         let mut d = vec![vec![0.0f64; n]; n];
         let kind = it % 4;
         for i in 0..n { for j in 0..n { if i == j || rng.below(3) == 0 { d[i][j] = rng.f(); } } }
@@ -529,7 +593,7 @@ fn c08(rng: &mut Rng, out: &mut Out) {
         let x0: Vec<f64> = (0..n).map(|_| match it % 3 { 0 => 0.0, 1 => rng.f(), _ => 500.0 * rng.f() }).collect();
         if it % 5 == 2 { for row in d.iter_mut() { for v in row.iter_mut() { *v *= 1.0e-3; } } }             // small-norm matrix
         let s = sparse_f(&d); let bv = Vector::create(b.clone()); let xv = Vector::create(x0.clone());
-        let tol = [1e-10, 1e-6, 1e-3][it % 3]; let maxit = [0usize, 1, 3, 60][it % 4];
+        let tol = [1e-10, 1e-6, 1e-3][it % 3]; let maxit = [0usize, 1, 3, 60, 200, 60][(it / 4) % 6];      // budget independent of the kind of system
         let ctx = format!("A={:?} b={:?} x0={:?} tol={} max_iter={}", d, b, x0, tol, maxit);
         let res = match quiet(|| solvers(&s, &bv, &xv, maxit, tol)) { Ok(r) => r, Err(e) => { report(out, "C08 solver panicked on conforming input", ctx, e, "Ok or Err".into()); continue; } };
         for (name, r, x) in res { case();
@@ -548,7 +612,7 @@ fn c08(rng: &mut Rng, out: &mut Out) {
 }
 fn c09(rng: &mut Rng, out: &mut Out) {
     for it in 0..120 { case();
-        let n = 1 + rng.below(10) as usize;
+        let n = 1 + rng.below(up(10, 60) as u64) as usize;
         let mut d = vec![vec![0.0f64; n]; n];
         for i in 0..n { for j in 0..n { if rng.below(3) == 0 { d[i][j] = rng.f(); } } }
         let spd = it % 2 == 0;
@@ -572,6 +636,7 @@ fn c09(rng: &mut Rng, out: &mut Out) {
     }
     // convergence on well-posed systems within O(n) iterations: a FIXED suite (independent of the seed), so that
     // the failures of the unchanged library are a fixed, listed set (known_findings.json) and anything else is new
+    if BIG.load(std::sync::atomic::Ordering::Relaxed) { return; }      // the fixed suites run once, in the first pass
     let mut fx = Rng(0x5DEECE66D1234567);
     // two systems on which the unchanged library is known to fail (open findings, see known_findings.json)
     let known: Vec<(Vec<Vec<f64>>, Vec<f64>)> = vec![
@@ -598,6 +663,18 @@ fn c09(rng: &mut Rng, out: &mut Out) {
             if !ok { report(out, "C09 converges on SPD / strictly diagonally dominant systems", format!("{} solver={}", ctx, name), format!("{:?} residual={:e}", r, resid(&d, &x, &b)), "Ok within 10n+20 iterations".into()); }
         }
     }
+    // SPD systems that need about n sweeps: tridiag(-1, 2, -1) of order up to 60 (every solver of the unchanged library converges in
+    // at most 1.3 n sweeps to a residual of rounding size), tolerances 1e-10 and 1e-12
+    for n in [30usize, 49, 50, 51, 52, 56, 60] { for tol in [1.0e-10, 1.0e-12] { case();
+        let mut d = vec![vec![0.0f64; n]; n]; for i in 0..n { d[i][i] = 2.0; if i + 1 < n { d[i][i + 1] = -1.0; d[i + 1][i] = -1.0; } }
+        let xs: Vec<f64> = (0..n).map(|i| ((i * 7 + 3) % 11) as f64 - 5.0).collect();
+        let b: Vec<f64> = (0..n).map(|i| (0..n).map(|j| d[i][j] * xs[j]).sum::<f64>()).collect();
+        let s = sparse_f(&d);
+        for (name, r, x) in solvers(&s, &Vector::create(b.clone()), &Vector::create(vec![0.0; n]), 2 * n + 20, tol) { case();
+            let ok = r.is_ok() && resid(&d, &x, &b) <= 1e-8;
+            if !ok { report(out, "C09 converges on ill-conditioned SPD systems (1-D Laplacian) within 2n+20 sweeps", format!("tridiag(-1,2,-1) n={} tol={:e} solver={}", n, tol, name), format!("{:?} residual={:e}", r, resid(&d, &x, &b)), "Ok, residual of rounding size".into()); }
+        }
+    } }
     // the same on a fixed suite of SPD systems started from a NON-ZERO guess (both error measures of BiCG)
     let mut fy = Rng(0x1234567DEECE66D5);
     for it in 0..60 { case();
@@ -633,7 +710,7 @@ fn peval(c: &[Cmplx], z: Cmplx) -> (f64, f64) {
 }
 fn c10(rng: &mut Rng, out: &mut Out) {
     let mut cases: Vec<Vec<Cmplx>> = vec![];
-    for deg in 1..8usize { for rep in 0..12 { case();
+    for deg in 1..up(8, 13) { for rep in 0..12 { case();
         let mut c: Vec<Cmplx> = (0..=deg).map(|_| Cmplx::new(rng.f(), if rep % 2 == 0 { 0.0 } else { rng.f() })).collect();
         if rep % 3 == 0 { c[0] = Cmplx::new(0.0, 0.0); }
         if rep % 4 == 1 && deg >= 3 { c[1] = Cmplx::new(0.0, 0.0); c[2] = Cmplx::new(0.0, 0.0); }
@@ -700,7 +777,8 @@ fn pev(c: &[Q], x: Q) -> Q { c.iter().rev().fold(Q::int(0), |s, a| s * x + *a) }
 fn coeffs_of(p: &Polynomial<Q>) -> Vec<Q> { (0..p.size()).map(|i| p[i]).collect() }
 fn c11_cmplx(rng: &mut Rng, out: &mut Out) {
     for _ in 0..120 { case();
-        let (la, lb) = (1 + rng.below(5) as usize, 1 + rng.below(5) as usize);
+        let (mut la, mut lb) = (1 + rng.below(up(5, 9) as u64) as usize, 1 + rng.below(up(5, 9) as u64) as usize);
+        if up(0, 1) == 1 && rng.below(4) == 0 { la = 8 + rng.below(2) as usize; lb = la; }
         let gz = |rng: &mut Rng| Cmplx::new(rng.int(-3, 3) as f64, rng.int(-3, 3) as f64);
         let a: Vec<Cmplx> = (0..la).map(|_| gz(rng)).collect(); let b: Vec<Cmplx> = (0..lb).map(|_| gz(rng)).collect();
         let (pa, pb) = (Polynomial::<Cmplx>::new(a.clone()), Polynomial::<Cmplx>::new(b.clone()));
@@ -719,7 +797,8 @@ fn c11_cmplx(rng: &mut Rng, out: &mut Out) {
 fn c11(rng: &mut Rng, out: &mut Out) {
     c11_cmplx(rng, out);
     for _ in 0..300 { case();
-        let (la, lb) = (rng.below(10) as usize, rng.below(10) as usize);      // lengths 0..9: degrees up to 8 and the empty polynomial
+        let (mut la, mut lb) = (rng.below(10) as usize, rng.below(10) as usize);      // lengths 0..9: degrees up to 8 and the empty polynomial
+        if up(0, 1) == 1 && rng.below(4) == 0 { la = 8 + rng.below(2) as usize; lb = la; }      // big pass: equal sizes at the top of the range
         let (a, b) = (pq(rng, la), pq(rng, lb));
         let (pa, pb) = (Polynomial::new(a.clone()), Polynomial::new(b.clone()));
         let x = rng.q(); let ctx = format!("p={} q={} x={:?}", qs(&a), qs(&b), x);
@@ -748,7 +827,7 @@ fn c11(rng: &mut Rng, out: &mut Out) {
 }
 fn c12(rng: &mut Rng, out: &mut Out) {
     for it in 0..400 { case();
-        let (lu, lv) = (1 + rng.below(8) as usize, 1 + rng.below(5) as usize);
+        let (lu, lv) = (1 + rng.below(up(8, 11) as u64) as usize, 1 + rng.below(up(5, 7) as u64) as usize);
         let mut u = pq(rng, lu); let mut v = pq(rng, lv);
         if it % 4 == 0 { for k in 0..lu { if k % 2 == 1 { u[k] = Q::int(0); } } for k in 0..lv { if k % 2 == 1 { v[k] = Q::int(0); } } }      // sparse / even polynomials
         if v[lv - 1].is_zero() { v[lv - 1] = Q::int(1); }
@@ -766,9 +845,29 @@ fn c12(rng: &mut Rng, out: &mut Out) {
             Err(e) => report(out, "C12 polydiv never panics", ctx, e, "Ok".into()),
         }
     }
-    for _ in 0..3000 { // general floats: success does not depend on exact cancellation
-        let u: Vec<f64> = (0..7).map(|_| rng.unit() * 20.0 - 10.0).collect(); let v: Vec<f64> = (0..3).map(|_| rng.unit() * 20.0 - 10.0).collect();
-        if let Ok(Err(e)) = quiet(|| Polynomial::new(u.clone()).polydiv(&Polynomial::new(v.clone()))) { report(out, "C12 succeeds for every float input", format!("u={:?} v={:?}", u, v), e.to_string(), "Ok".into()); }
+    for it in 0..3000 { // general floats: success does not depend on exact cancellation; u == q*v + r to rounding at every scale
+        let (lu, lv) = if it % 2 == 0 { (7, 3) } else { (1 + rng.below(11) as usize, 1 + rng.below(7) as usize) };
+        let su = [1.0, 1.0, 1.0e3, 1.0e-3, 1.0e100, 1.0e-100, 2.0f64.powi(-565), 2.0f64.powi(530)][it % 8];      // 2^-565 ~ 1e-170, 2^530 ~ 1e160
+        let mut u: Vec<f64> = (0..lu).map(|_| (rng.unit() * 20.0 - 10.0) * su * if it % 3 == 0 { [1.0, 1.0e3, 1.0e-3][rng.below(3) as usize] } else { 1.0 }).collect();
+        let mut v: Vec<f64> = (0..lv).map(|_| (rng.unit() * 20.0 - 10.0) * su).collect();
+        if it % 5 == 0 { u[lu - 1] = su; } if v[lv - 1].abs() < 0.5 * su { v[lv - 1] = 3.0 * su; }      // a divisor with a leading coefficient of ordinary relative size
+        match quiet(|| Polynomial::new(u.clone()).polydiv(&Polynomial::new(v.clone()))) {
+            Ok(Err(e)) => report(out, "C12 succeeds for every float input", format!("u={:?} v={:?}", u, v), e.to_string(), "Ok".into()),
+            Ok(Ok((q, r))) => { case();
+                // back = q*v + r and its magnitude sum, both divided by su*su' so that nothing overflows (q is of order one relative to u/v)
+                let (qc, rc): (Vec<f64>, Vec<f64>) = ((0..q.size()).map(|i| q[i]).collect(), (0..r.size()).map(|i| r[i]).collect());
+                let mut worst = 0.0f64;
+                for k in 0..lu.max(qc.len() + lv).max(rc.len()) {
+                    let mut acc = 0.0f64; let mut mag = 0.0f64;
+                    for i in 0..qc.len() { if k >= i && k - i < lv { let t = qc[i] * (v[k - i] / su); acc += t; mag += t.abs(); } }
+                    if k < rc.len() { acc += rc[k] / su; mag += (rc[k] / su).abs(); }
+                    let uk = if k < lu { u[k] / su } else { 0.0 }; mag += uk.abs();
+                    let e = (acc - uk).abs() / (mag + 1.0e-300); if !(e <= worst) { worst = e; }
+                }
+                let rdeg_ok = rc.iter().all(|c| *c == 0.0) || rc.len() < lv || lu < lv;
+                if !(worst <= 1e-9) || !rdeg_ok || qc.iter().chain(rc.iter()).any(|c| !c.is_finite()) { report(out, "C12 f64 division: u == q*v + r to rounding (coefficient by coefficient, normwise) and deg r < deg v, at every scale", format!("u={:?} v={:?}", u, v), format!("q={:?} r={:?} relative defect {:e}", qc, rc, worst), "defect of rounding size".into()); } }
+            Err(e) => report(out, "C12 polydiv never panics", format!("u={:?} v={:?}", u, v), e, "Ok".into()),
+        }
     }
     if !matches!(quiet(|| Polynomial::new(vec![Q::int(1)]).polydiv(&Polynomial::new(vec![Q::int(0), Q::int(0)]))), Ok(Err(_))) { report(out, "C12 division by the zero polynomial is an error", "v=[0,0]".into(), "not Err".into(), "Err".into()); }
 }
@@ -792,6 +891,33 @@ fn c13(rng: &mut Rng, out: &mut Out) {
         if (lt as u8 + eq as u8 + gt as u8) != 1 || (z != w) == eq { report(out, "C13 exactly one of <, ==, > and != is the negation of ==", ctx.clone(), format!("lt={} eq={} gt={} ne={}", lt, eq, gt, z != w), "consistent".into()); }
         let k = rng.q_nz(); let sc = z.clone() * k; if !same(&sc, &Complex::new(z.real * k, z.imag * k)) { report(out, "C13 scalar product", ctx.clone(), format!("{:?}", sc), "componentwise".into()); }
         let dv = z.clone() / k; if !same(&dv, &Complex::new(z.real / k, z.imag / k)) { report(out, "C13 scalar quotient", ctx.clone(), format!("{:?}", dv), "componentwise".into()); }
+        let v = cq(rng); if z < w && w < v && !(z < v) { report(out, "C13 the lexicographic order is transitive", format!("{} v=({:?},{:?})", ctx, v.real, v.imag), "z < w, w < v, not z < v".into(), "z < v".into()); }
+    }
+    // f64 components of magnitude 1e-100 .. 1e100 (also within one operand): product and quotient agree with the operation carried out on
+    // operands pre-scaled to order one (no overflow / underflow anywhere) to a few ulps normwise; compound forms are bit-identical
+    let sc2 = |x: f64, k: i32| -> f64 { let mut x = x; let mut k = k; while k > 500 { x *= 2.0f64.powi(500); k -= 500; } while k < -500 { x *= 2.0f64.powi(-500); k += 500; } x * 2.0f64.powi(k) };
+    let ex = |z: &Cmplx| -> i32 { let m = z.real.abs().max(z.imag.abs()); if m == 0.0 { 0 } else { m.log2().floor() as i32 } };
+    for it in 0..400 { case();
+        let e0 = rng.int(-330, 330) as i32;
+        let comp = |rng: &mut Rng| -> f64 { if rng.below(8) == 0 { return 0.0; } let e = if it % 2 == 0 { e0 + rng.int(-3, 3) as i32 } else { rng.int(-330, 330) as i32 }; (1.0 + rng.unit()) * 2.0f64.powi(e) * if rng.below(2) == 0 { 1.0 } else { -1.0 } };
+        let (z, w) = (Cmplx::new(comp(rng), comp(rng)), Cmplx::new(comp(rng), comp(rng)));
+        if (z.real == 0.0 && z.imag == 0.0) || (w.real == 0.0 && w.imag == 0.0) { continue; }
+        let ctx = format!("z=({:e},{:e}) w=({:e},{:e})", z.real, z.imag, w.real, w.imag);
+        let (ez, ew) = (ex(&z), ex(&w));
+        let (zs, ws) = (Cmplx::new(sc2(z.real, -ez), sc2(z.imag, -ez)), Cmplx::new(sc2(w.real, -ew), sc2(w.imag, -ew)));
+        let den = ws.real * ws.real + ws.imag * ws.imag;
+        let (qr, qi) = ((zs.real * ws.real + zs.imag * ws.imag) / den, (zs.imag * ws.real - zs.real * ws.imag) / den);
+        let (pr, pi) = (zs.real * ws.real - zs.imag * ws.imag, zs.real * ws.imag + zs.imag * ws.real);
+        if (ez - ew).abs() <= 660 {
+            let (er, ei) = (sc2(qr, ez - ew), sc2(qi, ez - ew)); let q = z / w; let mag = er.abs().max(ei.abs());
+            if !((q.real - er).abs() <= 1e-12 * mag && (q.imag - ei).abs() <= 1e-12 * mag) { report(out, "C13 f64 quotient agrees with the exact quotient to a few ulps (components of magnitude 1e-100..1e100)", ctx.clone(), format!("({:e}, {:e})", q.real, q.imag), format!("({:e}, {:e})", er, ei)); }
+            let mut qa = z; qa /= w; if qa.real.to_bits() != q.real.to_bits() || qa.imag.to_bits() != q.imag.to_bits() { report(out, "C13 f64 /= is bit-identical to /", ctx.clone(), format!("({:e}, {:e})", qa.real, qa.imag), format!("({:e}, {:e})", q.real, q.imag)); }
+        }
+        if (ez + ew).abs() <= 660 {
+            let (er, ei) = (sc2(pr, ez + ew), sc2(pi, ez + ew)); let m = z * w; let mag = er.abs().max(ei.abs());
+            if !((m.real - er).abs() <= 1e-12 * mag && (m.imag - ei).abs() <= 1e-12 * mag) { report(out, "C13 f64 product agrees with the exact product to a few ulps (components of magnitude 1e-100..1e100)", ctx.clone(), format!("({:e}, {:e})", m.real, m.imag), format!("({:e}, {:e})", er, ei)); }
+            let mut ma = z; ma *= w; if ma.real.to_bits() != m.real.to_bits() || ma.imag.to_bits() != m.imag.to_bits() { report(out, "C13 f64 *= is bit-identical to *", ctx.clone(), format!("({:e}, {:e})", ma.real, ma.imag), format!("({:e}, {:e})", m.real, m.imag)); }
+        }
     }
 }
 fn cl(a: Cmplx, b: Cmplx) -> bool { (a - b).abs() <= 1e-9 * (1.0 + a.abs() + b.abs()) }
@@ -837,7 +963,7 @@ fn c14(_rng: &mut Rng, out: &mut Out) {
 // ---------------------------------------------------------------- C15 / C16 vectors
 fn c15(rng: &mut Rng, out: &mut Out) {
     for _ in 0..300 { case();
-        let n = 1 + rng.below(8) as usize;
+        let n = 1 + rng.below(up(8, 64) as u64) as usize;
         let a: Vec<f64> = (0..n).map(|_| rng.f()).collect(); let b: Vec<f64> = (0..n).map(|_| rng.f()).collect();
         let (va, vb) = (Vector::create(a.clone()), Vector::create(b.clone()));
         let ctx = format!("u={:?} v={:?}", a, b);
@@ -961,6 +1087,23 @@ fn c17(_rng: &mut Rng, out: &mut Out) {
             if nw.parameters().2 != maxit || nw.parameters().3 != g0 { report(out, "C17 configuration untouched", ctx, "changed".into(), "unchanged".into()); }
         }
     }
+    // the iteration is invariant under a rescaling of f: tiny- and huge-valued functions converge to the same roots
+    for (k, (f, g0, root)) in [(&(|x: f64| 1.0e-9 * (x * x - 4.0)) as &dyn Fn(f64) -> f64, 1.0, 2.0), (&|x: f64| 1.0e-10 * (x.exp() - 3.0), 1.0, 3.0f64.ln()), (&|x: f64| 1.0e12 * (x * x * x - 8.0), 3.0, 2.0), (&|x: f64| 1.0e-14 * (x - 0.5), 0.0, 0.5)].into_iter().enumerate() { case();
+        let nw = Newton::<f64>::new(g0);
+        match nw.solve(f) { Ok(x) => if !((x - root).abs() <= 1e-5) { report(out, "C17 scalar success means a root (functions of very small / very large scale)", format!("scaled function #{} guess={}", k, g0), format!("Ok({})", x), format!("Ok({})", root)); },
+            Err(x) => report(out, "C17 a start inside the basin of quadratic convergence succeeds whatever the scale of f", format!("scaled function #{} guess={}", k, g0), format!("Err({})", x), format!("Ok({})", root)) }
+    }
+    // complex scalar solver, default and non-default finite-difference steps
+    for dl in [None, Some(1.0e-6), Some(1.0e-9), Some(1.0e-4)] { case();
+        let mut nw = Newton::<Cmplx>::new(Cmplx::new(1.0, 0.0)); if let Some(d) = dl { nw.delta(d); }
+        let f = |z: Cmplx| z * z * z - Cmplx::new(2.0, 0.0);
+        match nw.solve(&f) { Ok(z) => if !((z - Cmplx::new(2.0f64.cbrt(), 0.0)).abs() <= 1e-5) { report(out, "C17 complex scalar success means a root (every step size)", format!("z^3 - 2 from 1+0i, delta={:?}", dl), format!("Ok(({}, {}))", z.real, z.imag), format!("{}", 2.0f64.cbrt())); },
+            Err(z) => report(out, "C17 complex scalar solve converges from inside the basin (every step size)", format!("z^3 - 2 from 1+0i, delta={:?}", dl), format!("Err(({}, {}))", z.real, z.imag), format!("Ok({})", 2.0f64.cbrt())) }
+        let mut nw2 = Newton::<Cmplx>::new(Cmplx::new(0.5, 0.5)); if let Some(d) = dl { nw2.delta(d); }
+        let g = |z: Cmplx| z * z + Cmplx::new(1.0, 0.0);
+        match nw2.solve(&g) { Ok(z) => if !((z - Cmplx::new(0.0, 1.0)).abs() <= 1e-5) { report(out, "C17 complex scalar success means a root (every step size)", format!("z^2 + 1 from 0.5+0.5i, delta={:?}", dl), format!("Ok(({}, {}))", z.real, z.imag), "i".into()); },
+            Err(z) => report(out, "C17 complex scalar solve converges from inside the basin (every step size)", format!("z^2 + 1 from 0.5+0.5i, delta={:?}", dl), format!("Err(({}, {}))", z.real, z.imag), "Ok(i)".into()) }
+    }
     // systems: Ok exactly when some evaluated iterate had residual <= tol within the budget
     let lin = |x: Vec64| Vec64::create(vec![2.0 * x[0] + x[1] - 3.0, x[0] + 3.0 * x[1] - 4.0, x[2] - 5.0]);
     let linj = |_x: Vec64| { let mut m = Mat64::new(3, 3, 0.0); m[(0, 0)] = 2.0; m[(0, 1)] = 1.0; m[(1, 0)] = 1.0; m[(1, 1)] = 3.0; m[(2, 2)] = 1.0; m };
@@ -981,14 +1124,17 @@ fn c17(_rng: &mut Rng, out: &mut Out) {
 }
 fn c18(rng: &mut Rng, out: &mut Out) {
     use std::cell::RefCell;
-    for m in 1..5usize { for n in 1..5usize { for _ in 0..4 { case();
+    for m in 1..up(5, 7) { for n in 1..up(5, 7) { for _ in 0..4 { case();
         let a: Vec<Vec<f64>> = (0..m).map(|_| (0..n).map(|_| if rng.below(4) == 0 { 0.0 } else { rng.f() }).collect()).collect();
         let c: Vec<f64> = (0..m).map(|_| rng.f()).collect(); let mut p: Vec<f64> = (0..n).map(|_| rng.f()).collect();
-        for t in 0..n { match rng.below(6) { 0 => p[t] = -0.0625, 1 => p[t] = -0.03125, 2 => p[t] = 0.0, _ => {} } }     // within one step of zero, and the exact tie
+        for t in 0..n { match rng.below(6) { 0 => p[t] = -0.0625, 1 => p[t] = -0.03125, 2 => p[t] = 0.0, _ => {} } }     // within one step of zero, and the exact tie (for the step 1/16)
+        // every dyadic step 2^-4 .. 2^-26 keeps the quotients exact; rows of mixed scale (a large offset next to small coefficients)
+        let delta = [0.0625, 2.0f64.powi(-10), 2.0f64.powi(-20), 2.0f64.powi(-24), 2.0f64.powi(-26), 0.03125][rng.below(6) as usize];
+        let (mut a, mut c) = (a, c);
+        if rng.below(3) == 0 && m >= 2 { let i = rng.below(m as u64) as usize; for j in 0..n { a[i][j] *= 2.0f64.powi(-9); } let i2 = (i + 1 + rng.below(m as u64 - 1) as usize) % m; c[i2] = 1048576.0; }      // the large offset sits in ANOTHER component
         let calls: RefCell<Vec<Vec<f64>>> = RefCell::new(vec![]);
         let f = |x: Vec64| { calls.borrow_mut().push((0..n).map(|i| x[i]).collect()); Vec64::create((0..m).map(|i| c[i] + (0..n).map(|j| a[i][j] * x[j]).sum::<f64>()).collect()) };
-        let delta = 0.0625;
-        let ctx = format!("affine map R^{}->R^{} M={:?} point={:?} delta={}", n, m, a, p, delta);
+        let ctx = format!("affine map R^{}->R^{} M={:?} c={:?} point={:?} delta={}", n, m, a, c, p, delta);
         match quiet(|| Mat64::jacobian(Vec64::create(p.clone()), &f, delta)) {
             Ok(j) => { if j.rows() != m || j.cols() != n { report(out, "C18 Jacobian is m x n", ctx.clone(), format!("{}x{}", j.rows(), j.cols()), format!("{}x{}", m, n)); continue; }
                 for i in 0..m { for k in 0..n { if j[(i, k)] != a[i][k] { report(out, "C18 Jacobian of an affine map is its matrix (dyadic data)", ctx.clone(), format!("J[{},{}]={}", i, k, j[(i, k)]), format!("{}", a[i][k])); } } }
@@ -1024,7 +1170,7 @@ fn c19_file(rng: &mut Rng, out: &mut Out) {
     // whether the target mesh is new or already holds an (other) grid
     let dir = std::env::temp_dir();
     for it in 0..24 { case();
-        let (n, nv) = (2 + rng.below(6) as usize, 1 + rng.below(3) as usize);
+        let (n, nv) = (2 + rng.below(up(6, 11) as u64) as usize, 1 + rng.below(up(3, 4) as u64) as usize);
         // every printed precision (0, 3, 8 decimals) with data that prints exactly at it; magnitudes from 0.5 to 1e6 and large negative
         // values / nodes (fields of 7 and more characters), so that the column separator is what keeps neighbouring numbers apart
         let prec = [8usize, 0, 3, 8][it % 4];
@@ -1056,7 +1202,7 @@ fn c19_file(rng: &mut Rng, out: &mut Out) {
 }
 fn c19(rng: &mut Rng, out: &mut Out) {
     for _ in 0..60 { case();
-        let (nx, ny, nv) = (2 + rng.below(4) as usize, 2 + rng.below(4) as usize, 1 + rng.below(3) as usize);
+        let (nx, ny, nv) = (2 + rng.below(up(4, 11) as u64) as usize, 2 + rng.below(up(4, 11) as u64) as usize, 1 + rng.below(up(3, 4) as u64) as usize);
         let xs: Vec<f64> = (0..nx).scan(0.0, |s, _| { *s += 0.25 * (1 + rng.below(4)) as f64; Some(*s) }).collect();
         let ys: Vec<f64> = (0..ny).scan(-1.0, |s, _| { *s += 0.5 * (1 + rng.below(3)) as f64; Some(*s) }).collect();
         let mut m2 = Mesh2D::<f64>::new(Vector::create(xs.clone()), Vector::create(ys.clone()), nv);
@@ -1084,6 +1230,20 @@ fn c19(rng: &mut Rng, out: &mut Out) {
         for i in 0..nx { m1.set_nodes_vars(i, Vector::create(data[i].clone())); }
         for i in 0..nx { let v = m1.get_interpolated_vars(xs[i]); for k in 0..nv { if v[k] != data[i][k] { report(out, "C19 interpolation reproduces nodal values at every node", format!("nodes={:?} node {} var {}", xs, i, k), format!("{}", v[k]), format!("{}", data[i][k])); } } }
         for i in 0..nx - 1 { let xm = 0.5 * (xs[i] + xs[i + 1]); let v = m1.get_interpolated_vars(xm); for k in 0..nv { let e = 0.5 * (data[i][k] + data[i + 1][k]); if (v[k] - e).abs() > 1e-12 { report(out, "C19 interpolation is linear between neighbours", format!("nodes={:?} x={}", xs, xm), format!("{}", v[k]), format!("{}", e)); } } }
+        // grids far from the origin: a point 2^-19 (> 1e-6) from a node, the mid-cell point and a point 2^-19 before the next node lie on
+        // the line of their own cell, whatever the size of the coordinates
+        for (x0, h) in [(64.0f64, 0.25f64), (16384.0, 0.001953125), (-1024.0, 0.00390625), (0.0, 0.0078125)] {
+            let xt: Vec<f64> = (0..nx).scan(x0, |s, _| { *s += h * (1 + rng.below(3)) as f64; Some(*s) }).collect();
+            let mut mt = Mesh1D::<f64, f64>::new(Vector::create(xt.clone()), 1);
+            let dt: Vec<f64> = (0..nx).map(|_| rng.int(-9, 9) as f64 * 16.0).collect();
+            for i in 0..nx { mt.set_nodes_vars(i, Vector::create(vec![dt[i]])); }
+            for i in 0..nx - 1 { let w = xt[i + 1] - xt[i]; for off in [1.9073486328125e-6, 0.5 * w, w - 1.9073486328125e-6] { case();
+                let x = xt[i] + off; let e = dt[i] + (dt[i + 1] - dt[i]) * off / w;
+                match quiet(|| mt.get_interpolated_vars(x)) {
+                    Ok(v) => if !((v[0] - e).abs() <= 1e-9 * (1.0 + e.abs())) { report(out, "C19 interpolation at an interior point (>= 1e-6 from every node) lies on the line of its own cell, also for large coordinates", format!("nodes={:?} values={:?} x={:?}", xt, dt, x), format!("{}", v[0]), format!("{}", e)); },
+                    Err(er) => report(out, "C19 interpolation panicked at an interior point", format!("nodes={:?} x={:?}", xt, x), er, format!("{}", e)) }
+            } }
+        }
         let tr: f64 = (0..nx - 1).map(|i| 0.5 * (xs[i + 1] - xs[i]) * (data[i][0] + data[i + 1][0])).sum(); if (m1.trapezium(0) - tr).abs() > 1e-12 * (1.0 + tr.abs()) { report(out, "C19 1-D trapezium equals the sum of cell contributions", format!("nodes={:?}", xs), format!("{}", m1.trapezium(0)), format!("{}", tr)); }
     }
 }
@@ -1091,7 +1251,7 @@ fn c19(rng: &mut Rng, out: &mut Out) {
 // ---------------------------------------------------------------- C20 rejection / consuming == borrowed
 fn c20(rng: &mut Rng, out: &mut Out) {
     let must_panic = |out: &mut Out, what: String, r: Result<(), String>| if r.is_ok() { report(out, "C20 mismatched shapes / out-of-range arguments are rejected by a panic", what, "returned a value".into(), "panic".into()); };
-    for a in 1..5usize { for b in 1..5usize { if a == b { continue; }
+    for a in 1..up(5, 7) { for b in 1..up(5, 7) { if a == b { continue; }
         let (va, vb) = (Vector::<Q>::new(a, Q::int(1)), Vector::<Q>::new(b, Q::int(2)));
         must_panic(out, format!("Vector({}) + Vector({})", a, b), quiet(|| { let _ = &va + &vb; }));
         must_panic(out, format!("Vector({}) - Vector({})", a, b), quiet(|| { let _ = &va - &vb; }));
@@ -1130,7 +1290,32 @@ fn c20(rng: &mut Rng, out: &mut Out) {
         must_panic(out, format!("Banded{:?} - Banded{:?}", p, q), quiet(|| { let _ = &x - &y; }));
         must_panic(out, format!("Banded{:?} += Banded{:?}", p, q), quiet(|| { let mut t = x.clone(); t += &y; }));
         must_panic(out, format!("Banded{:?} -= Banded{:?}", p, q), quiet(|| { let mut t = x.clone(); t -= &y; }));
+        must_panic(out, format!("Banded{:?} += Banded{:?} (consuming)", p, q), quiet(|| { let mut t = x.clone(); t += y.clone(); }));
+        must_panic(out, format!("Banded{:?} -= Banded{:?} (consuming)", p, q), quiet(|| { let mut t = x.clone(); t -= y.clone(); }));
+        must_panic(out, format!("Banded{:?} + Banded{:?} (consuming)", p, q), quiet(|| { let _ = x.clone() + y.clone(); }));
+        must_panic(out, format!("Banded{:?} - Banded{:?} (consuming)", p, q), quiet(|| { let _ = x.clone() - y.clone(); }));
     }
+    // every pair of different bandwidth splits with the same n and the same m1 + m2, every form
+    for n in 2..7usize { for tot in 1..n { for a1 in 0..=tot { for b1 in 0..=tot { if a1 == b1 || tot - a1 >= n || tot - b1 >= n || a1 >= n || b1 >= n { continue; } case();
+        let (x, y) = (Banded::<Q>::new(n, a1, tot - a1, Q::int(1)), Banded::<Q>::new(n, b1, tot - b1, Q::int(2)));
+        let what = format!("Banded(n={}, {}, {}) op Banded(n={}, {}, {})", n, a1, tot - a1, n, b1, tot - b1);
+        must_panic(out, format!("{} [&x + &y]", what), quiet(|| { let _ = &x + &y; }));
+        must_panic(out, format!("{} [x + y]", what), quiet(|| { let _ = x.clone() + y.clone(); }));
+        must_panic(out, format!("{} [&x - &y]", what), quiet(|| { let _ = &x - &y; }));
+        must_panic(out, format!("{} [x - y]", what), quiet(|| { let _ = x.clone() - y.clone(); }));
+        must_panic(out, format!("{} [x += &y]", what), quiet(|| { let mut t = x.clone(); t += &y; }));
+        must_panic(out, format!("{} [x += y]", what), quiet(|| { let mut t = x.clone(); t += y.clone(); }));
+        must_panic(out, format!("{} [x -= &y]", what), quiet(|| { let mut t = x.clone(); t -= &y; }));
+        must_panic(out, format!("{} [x -= y]", what), quiet(|| { let mut t = x.clone(); t -= y.clone(); }));
+    } } } }
+    // products with the largest square operand (6 x 6): non-conformable partners of every shape, borrowing and consuming
+    { let sq = Matrix::<Q>::new(6, 6, Q::int(1));
+      for a in 1..7usize { for b in 1..7usize { case();
+        let m = Matrix::<Q>::new(a, b, Q::int(2));
+        if a != 6 { must_panic(out, format!("&Matrix(6x6) * &Matrix({}x{})", a, b), quiet(|| { let _ = &sq * &m; })); must_panic(out, format!("Matrix(6x6) * Matrix({}x{})", a, b), quiet(|| { let _ = sq.clone() * m.clone(); })); }
+        if b != 6 { must_panic(out, format!("&Matrix({}x{}) * &Matrix(6x6)", a, b), quiet(|| { let _ = &m * &sq; })); must_panic(out, format!("Matrix({}x{}) * Matrix(6x6)", a, b), quiet(|| { let _ = m.clone() * sq.clone(); })); }
+        if a != 6 || b != 6 { must_panic(out, format!("&Matrix(6x6) + &Matrix({}x{})", a, b), quiet(|| { let _ = &sq + &m; })); must_panic(out, format!("&Matrix(6x6) - &Matrix({}x{})", a, b), quiet(|| { let _ = &sq - &m; })); }
+      } } }
     // a resize that keeps n and m1 + m2 but changes the split must change what is accepted
     for (p, q) in [((4usize, 1usize, 1usize), (4usize, 2usize, 0usize)), ((5, 2, 1), (5, 1, 2)), ((4, 0, 2), (4, 2, 0))] { case();
         let mut x = Banded::<Q>::new(p.0, p.1, p.2, Q::int(1)); x.resize(q.0, q.1, q.2);
@@ -1175,14 +1360,17 @@ fn main() {
     std::panic::set_hook(Box::new(|info| { if let Ok(mut g) = LAST_PANIC.lock() { *g = info.to_string(); } }));
     let mut rng = Rng(0x9E3779B97F4A7C15 ^ (seed.wrapping_mul(0x2545F4914F6CDD1D) | 1));
     let mut out: Out = vec![];
-    let escaped = catch_unwind(AssertUnwindSafe(|| { let out = &mut out; let rng = &mut rng; match pid.as_str() {
-        "C01" => c01(rng, out), "C02" => c02(rng, out), "C03" => c03(rng, out), "C04" => { c04(rng, out); c04_f64(rng, out) },
+    // two passes: the small sizes (dense sampling of every small shape), then the sizes at the upper end of the quantified range
+    let escaped = catch_unwind(AssertUnwindSafe(|| { let out = &mut out; let rng = &mut rng; for big in [false, true] { BIG.store(big, std::sync::atomic::Ordering::Relaxed);
+        if big && matches!(pid.as_str(), "C13" | "C14" | "C16" | "C17") { continue; }      // no size parameter in these oracles
+        match pid.as_str() {
+        "C01" => { c01(rng, out); if !big { c01_extreme(rng, out) } }, "C02" => c02(rng, out), "C03" => c03(rng, out), "C04" => { c04(rng, out); c04_f64(rng, out) },
         "C05" => { c05(rng, out); c05_f64(rng, out) }, "C06" => c06(rng, out), "C07" => { c07(rng, out); c07_insert(rng, out); c07_sizes(rng, out) }, "C08" => c08(rng, out),
         "C09" => c09(rng, out), "C10" => c10(rng, out), "C11" => c11(rng, out), "C12" => c12(rng, out),
         "C13" => c13(rng, out), "C14" => c14(rng, out), "C15" => c15(rng, out), "C16" => c16(rng, out),
         "C17" => c17(rng, out), "C18" => c18(rng, out), "C19" => { c19(rng, out); c19_file(rng, out) }, "C20" => c20(rng, out),
         _ => { eprintln!("unknown property {}", pid); std::process::exit(2); }
-    } }));
+    } } }));
     if escaped.is_err() {
         let msg = LAST_PANIC.lock().map(|g| g.clone()).unwrap_or_default();
         out.push(Finding { oracle: "the library panicked on an input the property covers (the panic escaped the oracle)", input: format!("oracle {} seed {} after {} cases", pid, seed, CASES.load(std::sync::atomic::Ordering::Relaxed)), observed: msg, expected: "no panic".into() });
